@@ -146,3 +146,55 @@ Proof.
   - intro x. destruct (helper_coordinate_agrees _ _ _ _ _ [x] 0%nat x HR eq_refl) as (t & l & Ht & Hl & N).
     cbn in Hl. injection Hl as <-. cbn in N. injection N as <-. exact Ht.
 Qed.
+
+(* the remaining accessors of volume.py:647-802 on a geometry built from attributes *)
+Theorem volume_more_accessors pos r c sr sc ss nf rows cols :
+  orthonormal r c -> 0 < sr -> 0 < sc -> 0 < ss ->
+  exists G a b s0 D B,
+    geom_from_attributes (apos pos) (aori r c) (asp sr sc) ss nf rows cols = Ok G /\
+    g_pixel_spacing G = Some (a, b) /\ a == sr /\ b == sc /\
+    g_spacing_between_slices G = Some s0 /\ s0 == ss /\
+    (exists v, g_voxel_volume G = Some v /\ v == ss * sr * sc) /\
+    (exists e, g_physical_extent G = Some e /\
+               veq e (V3 (inject_Z nf * ss) (inject_Z rows * sr) (inject_Z cols * sc))) /\
+    g_direction G = Some D /\ ortho_cols D /\ veq (norms_sq D) (V3 1 1 1) /\ veq (c2 D) r /\ veq (c1 D) c /\
+    g_inverse_affine G = Ok B /\
+    (forall p, veq (aapply B (aapply (g_aff G) p)) p /\ veq (aapply (g_aff G) (aapply B p)) p).
+Proof.
+  intros O Hr Hc Hs.
+  destruct (volume_accessors_total pos r c sr sc ss nf rows cols O Hr Hc Hs)
+    as (G & s & dr & dc & E & _ & SHP & _ & GS & (S0 & S1 & S2) & GD & D1 & D2 & _ & _).
+  destruct (volume_accessors pos r c sr sc ss nf rows cols O Hr Hc Hs)
+    as (G' & E' & GA & _ & _ & SQ & OC & _).
+  rewrite E in E'. injection E' as <-.
+  cbn [vx vy vz] in S0, S1, S2.
+  assert (DN : ~ det (lin (g_aff G)) == 0).
+  { rewrite GA. cbn [lin].
+    destruct (rotation_shape r c PD PR true RH sr sc ss O eq_refl) as (_ & _ & D). rewrite D.
+    cbn [hand_sign conv_sp]. intro Z.
+    assert (P : 0 < sr * sc * ss) by (apply Qmult_lt_0_compat; [apply Qmult_lt_0_compat|]; assumption).
+    lra. }
+  destruct (inv3_exists _ DN) as (Mi & EI).
+  exists G, (vy s), (vz s), (vx s).
+  exists (M3 (smul (/ vx s) (c0 (lin (g_aff G)))) (smul (/ vy s) (c1 (lin (g_aff G)))) (smul (/ vz s) (c2 (lin (g_aff G))))).
+  exists (Aff Mi (vred (vneg (mapply Mi (tr (g_aff G)))))).
+  split; [exact E|].
+  split; [unfold g_pixel_spacing; rewrite GS; reflexivity|]. split; [exact S1|]. split; [exact S2|].
+  split; [unfold g_spacing_between_slices; rewrite GS; reflexivity|]. split; [exact S0|].
+  split; [eexists; split; [unfold g_voxel_volume; rewrite GS; reflexivity | rewrite S0, S1, S2; reflexivity]|].
+  split; [eexists; split; [unfold g_physical_extent; rewrite GS, SHP; reflexivity |
+                           unfold veq; proj; rewrite S0, S1, S2; repeat split; reflexivity]|].
+  split; [unfold g_direction; rewrite GS; reflexivity|].
+  assert (N0 : ~ vx s == 0) by (rewrite S0; apply pos_nonzero; exact Hs).
+  assert (N1 : ~ vy s == 0) by (rewrite S1; apply pos_nonzero; exact Hr).
+  assert (N2 : ~ vz s == 0) by (rewrite S2; apply pos_nonzero; exact Hc).
+  destruct OC as (O1 & O2 & O3). destruct SQ as (Q0 & Q1 & Q2). unfold g_spacing_sq in Q0, Q1, Q2. cbn [vx vy vz] in Q0, Q1, Q2.
+  split; [unfold ortho_cols; proj; rewrite !dot_smul, O1, O2, O3; repeat split; ring|].
+  split.
+  { unfold norms_sq, veq; proj. rewrite !dot_smul, Q0, Q1, Q2. rewrite <- S0, <- S1, <- S2.
+    repeat split; field; assumption. }
+  unfold g_direction_cosines in GD. rewrite GS in GD. injection GD as <- <-.
+  split; [exact D1|]. split; [exact D2|].
+  split; [unfold g_inverse_affine; rewrite EI; reflexivity|].
+  intro p. apply (aff_inverse (g_aff G) Mi EI).
+Qed.
